@@ -42,6 +42,14 @@ def run(rep, tier, seed, replay=None):
     nk = 400 if tier == 'quick' else 4000
     engine_correspondence(rep, binp, seed, nk)
     engine_event_correspondence(rep, binp, seed, 600 if tier == 'quick' else 6000)
+    # ---- the engine with the REAL cache (wave 6c): memo_real (Model/EngineReal.v) with the block algorithm vs TaffyTree without the
+    # exact-key hook, whole trees, layouts + query / hit / measure counts; reports how many trees have no lossy hit (the class on which
+    # C01_real_equals_exact_when_no_lossy_hit_partial transfers the exact-key theorems) and how many of those differ from the exact run
+    from . import _blockreal
+    esc = bool([c for c in changed if c.startswith('gen_cache:') or 'compute_cached_layout' in c or 'compute_child_layout' in c
+                or 'compute_hidden_layout' in c])
+    _blockreal.real_tree_k(rep, 'C01', binp, seed + 101, 3000 if tier != 'quick' or esc else 300)
+    _blockreal.lossy_witness(rep, binp)
     # ---- search
     n = 600 if tier == 'quick' and not rep.broken else 6000
     if replay:
